@@ -14,6 +14,7 @@ import (
 	"hash"
 	"math/rand/v2"
 	"net/netip"
+	"slices"
 	"strings"
 	"sync"
 	"time"
@@ -796,6 +797,46 @@ func generatorRun(res *core.Result, r *rand.Rand, n int, prefix string) {
 		}
 		res.Count("generated_identities_checked", 1)
 		res.Case(prefix+"gen:"+desc, len(ignore) > 0 || maxEasing > 0 || len(acceptable) > 1)
+	}
+	// One caller, several calls: the same ignore list (the same slice, as a long-lived caller such as the
+	// config layer holds it) is handed to calls with different acceptable sets. The oracle judges every result
+	// against its own copy of what the caller meant to ignore.
+	halves := []netip.Prefix{netip.MustParsePrefix("fd00::/9"), netip.MustParsePrefix("fd80::/9"), netip.MustParsePrefix("fd00::/8")}
+	for sess := 0; sess < n/3+1; sess++ {
+		shared := make([]netip.Prefix, 0, 8)
+		for k := 2 + r.IntN(3); k > 0; k-- {
+			bits := 10 + r.IntN(2)
+			var a [16]byte
+			a[0] = 0xfd
+			a[1] = byte(r.IntN(256))
+			p, _ := netip.AddrFrom16(a).Prefix(bits)
+			shared = append(shared, p)
+		}
+		meant := slices.Clone(shared)
+		for call := 0; call < 5; call++ {
+			acceptable := []netip.Prefix{halves[r.IntN(len(halves))]}
+			maxEasing := []uint64{0, 1, 50}[r.IntN(3)]
+			desc := fmt.Sprintf("call %d of one caller reusing its ignore list: GenerateRoutableAddress(acceptable=%v, ignore=%v, maxEasing=%d)", call+1, acceptable, meant, maxEasing)
+			ctx, cancel := context.WithTimeout(context.Background(), 2*time.Minute)
+			var addr *m.Address
+			var err error
+			pv := vmesh.Safely(func() { addr, _, err = m.GenerateRoutableAddress(ctx, slices.Clone(acceptable), shared, maxEasing) })
+			cancel()
+			if pv != nil {
+				res.Violate("crash:generator", fmt.Sprintf("%s panicked: %v", desc, pv), map[string]any{"generator": desc})
+				return
+			}
+			if err != nil {
+				res.Count("generator_gave_up", 1)
+				continue
+			}
+			if !checkGenerated(res, addr, acceptable, meant, desc) {
+				return
+			}
+			res.Count("generated_identities_checked", 1)
+			res.Count("generated_with_reused_ignore_list", 1)
+			res.Case(prefix+"gen-reuse:"+desc, true)
+		}
 	}
 	// privacy addresses (single-core path)
 	for i := 0; i < n/4+1; i++ {
